@@ -119,7 +119,11 @@ theorem fval_strictMono : ∀ a b, a < b → fval a < fval b := fval_lt
 theorem fval_le_iff_le : ∀ a b, fval a ≤ fval b ↔ a ≤ b := fval_le_iff
 
 /-- finite or infinite input: the result is (signed) infinity exactly from bit pattern
-0x477ff000 (= 65520) upwards -/
+0x477ff000 (= 65520) upwards.  The hypothesis admits the pattern of infinity itself
+(`v % 2^31 = 0x7f800000`); the statement is about BIT PATTERNS there.  Note that `fval` is
+totalised above the finite range (`fval 0x7f800000` is the number `2^23 * 2^254`, not
+"infinity"), which is why the value-scale form `f2h_overflow_val` below excludes infinity and
+why `f2h_flush` needs no finiteness hypothesis. -/
 theorem f2h_overflow : ∀ v, v < 4294967296 → v % 2147483648 ≤ 0x7f800000 →
     (f2h v % 32768 = 0x7c00 ↔ 0x477ff000 ≤ v % 2147483648) := by
   intro v hv hle
